@@ -59,7 +59,7 @@ template<class S> struct Rec;
 template<> struct Rec<sym::Real> {
   typedef sym::Real S;
   std::string entry; std::vector<Item> items;
-  std::map<std::string,double>* input = nullptr;
+  std::map<std::string,double>* input = nullptr; bool inv_mode=false;
   S var(const std::string& n, double w){ return S::var(entry+":"+n, w); }
   S rat(long p, long q){ return q==1 ? S((double)p) : S((double)p)/S((double)q); }
   void eq(const std::string& n, const S& l, const S& r){ items.push_back(Item{'E',n,l.id,r.id,l.val(),r.val(),""}); }
@@ -77,7 +77,7 @@ template<> struct Rec<sym::Real> {
 template<class F> struct RecC {
   typedef F S;
   std::string entry; std::vector<Item> items;
-  std::map<std::string,double>* input = nullptr;
+  std::map<std::string,double>* input = nullptr; bool inv_mode=false;
   S var(const std::string& n, double w){ if (input){ auto it=input->find(entry+":"+n); if(it!=input->end()) return (F)it->second; } return (F)w; }
   S rat(long p, long q){ return (F)((double)p/(double)q); }
   void eq(const std::string& n, const S& l, const S& r){ items.push_back(Item{'E',n,-1,-1,(double)l,(double)r,""}); }
